@@ -222,12 +222,12 @@ class GenDef:
 
     def dispatch_case(self, fnsrc):
         n = len(self.params)
-        vs = ["a%d" % i for i in range(n)]
+        vs = ["(a.getD %d 0)" % i for i in range(n)]
         fargs = "".join(" (%s)" % fnsrc[f] for f in self.funcs)
         call = "Gen.%s%s%s" % (self.name, fargs, "".join(" " + v for v in vs))
         if self.is_bool:
             call = "[if %s then (1 : ℚ) else 0]" % call
-        return '  | "%s", [%s] => some (%s)' % (self.name, ", ".join(vs), call)
+        return '  | "%s" => if a.length = %d then some (%s) else none' % (self.name, n, call)
 
 
 def emit_file(topic, defs, extra=""):
@@ -241,9 +241,9 @@ def emit_file(topic, defs, extra=""):
     t.append("end Gen\n")
     fnsrc = {f: "tbl.%s" % f for f in FUNC_ORDER}
     t.append("/-- evaluation at K = ℚ for the correspondence driver -/")
-    t.append("def Gen.dispatch%s (tbl : FnTable) (name : String) (args : List ℚ) : Option (List ℚ) :=" % topic)
-    t.append("  match name, args with")
+    t.append("def Gen.dispatch%s (tbl : FnTable) (name : String) (a : List ℚ) : Option (List ℚ) :=" % topic)
+    t.append("  match name with")
     for d in defs:
         t.append(d.dispatch_case(fnsrc))
-    t.append("  | _, _ => none\n")
+    t.append("  | _ => none\n")
     return "\n".join(t)
